@@ -146,8 +146,9 @@ def drive(v, tier, seed):
         tr = os.path.join(d, "refs_%d.ndjson" % i)
         if os.path.exists(tr):
             os.unlink(tr)
-        rc, out, err = sh([drv, tr, str(s), str(perturb), str(execs), str(ops), hex(mask), "90"], timeout=1200)
-        return dict(i=i, s=s, tr=tr, rc=rc, err=err, desc="seed=%d perturb=%d mask=%s" % (s, perturb, hex(mask)))
+        steer = i % 2      # odd runs: the hand-over of a client's last reference to a block is stalled at the push's +2
+        rc, out, err = sh([drv, tr, str(s), str(perturb), str(execs), str(ops), hex(mask), "90", str(steer)], timeout=1200)
+        return dict(i=i, s=s, tr=tr, rc=rc, err=err, desc="seed=%d perturb=%d mask=%s steer=%d" % (s, perturb, hex(mask), steer))
 
     with cf.ThreadPoolExecutor(max_workers=4) as ex:
         runs = list(ex.map(one, plan))
@@ -231,7 +232,7 @@ def sanitize(v, tier, seed):
     def one(i):
         s = seed * 1000 + 500 + i
         tr = os.path.join(d, "asan_%d.ndjson" % i)
-        rc, out, err = sh([drv, tr, str(s), str([2, 3, 1][i % 3]), "10", "18", hex(0x1f if i % 2 else 0x01), "150"], timeout=1800, env=env)
+        rc, out, err = sh([drv, tr, str(s), str([2, 3, 1][i % 3]), "12", "16", hex(0x1f if i % 3 == 2 else 0x01), "150", "1"], timeout=1800, env=env)
         return i, s, tr, rc, err
 
     with cf.ThreadPoolExecutor(max_workers=3) as ex:
